@@ -86,19 +86,34 @@ def run(ctx):
     tabnode = tabs[0][0] if tabs else None
     tabpos = tabs[0].pos if tabs else True
 
-    def branch_of(call):
-        out = set()
-        for cn in cfg.nodes:
-            if cn.kind == "stmt" and any(x is call for x in ast.walk(cn.ast)):
-                for c, o, _ in cfg.guards_of(cn):
-                    if c is tabnode:
-                        out.add(o is tabpos)
-        return out
-    if len(sup) == 1 and [norm(a) for a in sup[0].args] == [namep, valp] and branch_of(sup[0]) == {True}:  # True: "name is local"
+    posof = {id(t[0]): t.pos for t in tabs}
+    in_guards = [g for g in cfg.nodes if g.kind == "guard" and id(g.cond) in posof and g.outcome is posof[id(g.cond)]]
+
+    def holders(call):
+        return [cn for cn in cfg.nodes if cn.kind == "stmt" and any(x is call for x in ast.walk(cn.ast))]
+
+    def only_for_local(call):
+        """not reachable on a path on which every membership test came out 'not in'"""
+        reach = cfg.reach_from(cfg.entry, avoid=in_guards, labels_excluded=("exc",))
+        hs = holders(call)
+        return bool(hs) and not any(h.id in reach for h in hs)
+
+    def only_for_foreign(call):
+        """every membership test dominates the call with outcome 'not in'"""
+        hs = holders(call)
+        if not hs:
+            return False
+        for h in hs:
+            gs = {id(c): o for c, o, _ in cfg.guards_of(h)}
+            for t in tabs:
+                if gs.get(id(t[0])) is not (not t.pos):
+                    return False
+        return True
+    if len(sup) == 1 and [norm(a) for a in sup[0].args] == [namep, valp] and only_for_local(sup[0]):
         ctx.inst("L2", sa, sup[0], "local names: stored on the link itself, same name and value")
     else:
         ctx.viol("L2", sa, sa.node, "for local names __setattr__ does not do super().__setattr__(name, value)", construct="__setattr__ local branch")
-    if len(fwd) == 1 and [norm(a) for a in fwd[0].args] == ["%s.target" % sa.selfname, namep, valp] and branch_of(fwd[0]) == {False}:
+    if len(fwd) == 1 and [norm(a) for a in fwd[0].args] == ["%s.target" % sa.selfname, namep, valp] and only_for_foreign(fwd[0]):
         ctx.inst("L2", sa, fwd[0], "other names: setattr(self.target, name, value)")
     else:
         ctx.viol("L2", sa, sa.node, "for other names __setattr__ does not do setattr(self.target, name, value)", construct="__setattr__ forwarding branch")
